@@ -56,7 +56,7 @@ func readGauges() map[string]float64 {
 }
 
 var c20Kinds = []string{"complete-1", "complete-multi", "abandon-eof", "abandon-silence", "even-first", "seq-violation", "key-mismatch", "refused", "oversize", "truncated", "idle", "open-at-shutdown", "two-sessions-one-abandoned",
-	"many-open-sessions", "reply-write-fails", "reply-write-fails-then-more"}
+	"many-open-sessions", "reply-write-fails", "reply-write-fails-then-more", "top-of-number-space-then-restart", "walk-to-255", "session-id-reused"}
 
 func runC20(b *mon.B) {
 	r := gen.New(uint64(b.Seed), 0xC20, uint64(b.Index))
@@ -219,6 +219,25 @@ func runC20(b *mon.B) {
 				send(pkt(sid, 1, 'C'))
 				send(pkt(sid, 3, 'x'))
 				send(pkt(sid+1, 1, 'x'))
+				c.EOF()
+			case "top-of-number-space-then-restart":
+				// a session taken to the top of the number space, then its id shows up again with 1
+				send(pkt(sid, 1, 'C'))
+				send(pkt(sid, rr.Pick(251, 253), 'C'))
+				send(pkt(sid, 1, 'C'))
+				send(pkt(sid, 3, 'x'))
+				c.EOF()
+			case "walk-to-255":
+				send(pkt(sid, 1, 'C'))
+				send(pkt(sid, 253, 'C'))
+				send(pkt(sid, 255, rr.PickS("C", "x")[0]))
+				send(pkt(sid+1, 1, 'x'))
+				c.EOF()
+			case "session-id-reused":
+				send(pkt(sid, 1, 'x'))
+				send(pkt(sid, 1, 'C'))
+				send(pkt(sid, 3, 'x'))
+				send(pkt(sid, 1, 'x'))
 				c.EOF()
 			case "even-first":
 				send(pkt(sid, 2*(1+rr.Intn(100)), 'x'))
